@@ -174,12 +174,15 @@ def make_aave_data(bars, seed):
     return pd.DataFrame(rows, index=index)
 
 
-def make_deribit_data(hours, seed):
-    """(time, instrument_name)-indexed frame as load_deribit_option_data builds it; asks / bids cells are Python lists of [price, amount]"""
+def make_deribit_data(hours, seed, gap=()):
+    """(time, instrument_name)-indexed frame as load_deribit_option_data builds it; asks / bids cells are Python lists of [price, amount];
+    `gap`: hours for which the collected data has no snapshot at all (the hourly market is closed on those bars and publishes an empty status)"""
     import pandas as pd
     s1 = float(best_ask_size(seed))
     rows = []
     for h, hour in enumerate(pd.date_range(T0, periods=hours, freq="1h")):
+        if h in gap:
+            continue
         common = dict(time=hour, state="open", expiry_time=pd.Timestamp("2023-09-22 08:00:00"), underlying_price=1650.0 + h)
         rows.append(dict(common, instrument_name=CALL, type="CALL", strike_price=1650, gamma=0.00342, delta=0.52, mark_price=0.0287,
                          asks=[[0.0285, s1], [0.029, 605.0 + h], [0.0295, 200.0]], bids=[[0.028, s1 + 1], [0.0275, 300.0], [0.027, 40.0]]))
@@ -533,7 +536,7 @@ def make_strategy_class():
                     self.assets[t].balance += Decimal(7)
                     self.broker.add_to_balance(t, Decimal(3))
                 self._try("pay", pay)
-            elif b == "watcher" and r == (min(3, len(self.prices) - 1) if o2 < 60 else 60):
+            elif b == "watcher" and r in ((min(3, len(self.prices) - 1),) if o2 < 60 else (3, 60)):
                 # records what it sees and trades by it: anything written by somebody else into prices / data / status shows up here
                 self.notes.append("price:" + ",".join(str(x) for x in snapshot.prices.values))
                 for mi, m in self.broker.markets.items():
@@ -630,7 +633,7 @@ def build_world(spec):
             from demeter.deribit import DeribitOptionMarket
             m = DeribitOptionMarket(MarketInfo(name, MarketTypeEnum.deribit_option), DeribitOptionMarket.ETH)
             hours = bars if names == ["deribit"] else (bars + 59) // 60
-            frames[m.market_info] = make_deribit_data(hours, seed)
+            frames[m.market_info] = make_deribit_data(hours, seed, tuple(spec.get("deribit_gap") or ()))
             assets[eth] = Decimal(spec["eth"])
         elif name == "uni_sq":
             m = UniLpMarket(MarketInfo(name, MarketTypeEnum.uniswap_v3), UniV3Pool(weth, osqth, 0.3, weth))
@@ -793,7 +796,7 @@ def run_edge(scenario):
 
 
 # ============================================================================================== harness side
-CONF_KEYS = ("markets", "bars", "data_seed", "usdc", "eth", "price_kind", "interval")
+CONF_KEYS = ("markets", "bars", "data_seed", "usdc", "eth", "price_kind", "interval", "deribit_gap")
 
 
 def run_manager(spec, timeout=600):
@@ -842,7 +845,7 @@ def base_spec(rng, markets, bars=None, price_kind=None, interval=None):
 
 
 def conf_of(case):
-    return {k: case.get(k, "1min") if k == "interval" else case[k] for k in CONF_KEYS}
+    return {k: case.get(k, "1min") if k == "interval" else case.get(k) if k == "deribit_gap" else case[k] for k in CONF_KEYS}
 
 
 def strategies_of(case):
@@ -1036,6 +1039,11 @@ def gen_cases(ctx):
     fixed(["deribit"], 1, ["mut_data", "opt_buy", "watcher"], args=[None, 0, None])
     fixed(["uni_a", "deribit"], 1, ["opt_buy", "add1", "mut_nested", "opt_buy"], args=[0, None, None, 2])
     fixed(["uni_a", "deribit"], 2, ["mut_status", "opt_round", "watcher"], args=[None, 0, None])
+    # the option data lacks the hour in which the backtest starts (minute pool data from 00:00, first hourly snapshot at 01:00): during the first hour
+    # the hourly market publishes an empty status; a strategy that looks at it then must see 'no quotes', not what an earlier backtest published last
+    for threads in (1, 2):
+        fixed(None, threads, ["opt_round", "watcher", "watcher"], args=[0, None, None], base=dict(base_spec(rng, ["uni_a", "deribit"]), deribit_gap=[0]))
+    fixed(None, 1, ["idle", "watcher"], order=[1, 0], kind="rev", base=dict(base_spec(rng, ["uni_a", "deribit"], 130), deribit_gap=[1]))
     # a strategy that writes into self.prices, float frame and all-Decimal frame, followed by strategies valued with those prices
     for pk in ("float", "decimal"):
         fixed(["uni_a"], 1, ["mut_prices", "buy", "add1"], price_kind=pk)
@@ -1063,6 +1071,10 @@ def gen_cases(ctx):
     fixed(["uni_a"], 4, ["raiser", "raiser", "add1", "watcher"])
     fixed(["uni_a"], 2, ["raiser", "add1", "buy"], windows=True)           # … and through the pooled branch that pickles the data per task
     fixed(["uni_a", "uni_b"], 2, ["add1", "raiser", "add_b", "raiser"], windows=True)
+    # more strategies than 4 x workers (the size from which Pool.map-style submission puts several tasks into one chunk), one of them failing early
+    # in the list: every other strategy still has its solo result, whichever task shared a chunk / a worker with the failing one
+    fixed(["uni_a"], 2, ["add1", "idle", "raiser", "buy", "idle", "sell", "add1", "idle", "buy", "idle"])
+    fixed(["uni_a"], 2, ["idle", "raiser", "add1", "buy", "raiser", "sell", "idle", "add1", "buy", "sell"], windows=True)
     # Squeeth refers to its oSQTH pool market: both are configured markets
     fixed(["uni_sq", "squeeth"], 1, ["sq_buy", "sq_short", "idle", "mut_data"], price_kind="decimal")
     fixed(["uni_sq", "squeeth"], 2, ["sq_short", "sq_buy", "watcher"])
